@@ -1,0 +1,14 @@
+//go:build verif
+
+package ast
+
+// Verification hook (add-only, build tag "verif"): the tests of this package
+// print composite literals completely by setting expandedPrint; the hook
+// makes the switch reachable from outside the package.
+
+// VerifSetExpandedPrint sets expandedPrint and returns its previous value.
+func VerifSetExpandedPrint(on bool) bool {
+	old := expandedPrint
+	expandedPrint = on
+	return old
+}
